@@ -9,6 +9,7 @@ import (
 	"bytes"
 	"encoding/json"
 	"fmt"
+	rmath "github.com/xelaj/mtproto/internal/math"
 	"math/big"
 	"reflect"
 	"sync"
@@ -462,6 +463,38 @@ func srpSet(rounds int, enc *json.Encoder) {
 					}
 				})
 			}
+		})
+		c.rep.Rounds++
+	}
+	enc.Encode(c.rep)
+}
+
+// firstDrawsSet: 8 goroutines make what are the first random draws of this process at the same moment (nonce,
+// new_nonce, DH exponent), then again; all values of one kind must differ. The race detector sees whatever is
+// built lazily around the OS source without synchronisation.
+func firstDrawsSet(rounds int, enc *json.Encoder) {
+	c := newCollector("8 goroutines draw nonce, new_nonce and a DH exponent at the same moment, the first draws of the process among them; no value of a kind may occur twice")
+	p := hs.HexBig(hs.TelegramPrime)
+	ga := new(big.Int).Exp(big.NewInt(3), big.NewInt(0x7654321), p)
+	var mu sync.Mutex
+	seen := map[string]bool{}
+	note := func(kind string, v *big.Int) {
+		mu.Lock()
+		k := kind + v.Text(16)
+		if seen[k] {
+			c.wrong("first-draws|" + kind + "|drawn-twice")
+		}
+		seen[k] = true
+		mu.Unlock()
+	}
+	for r := 0; r < rounds/20+2; r++ {
+		together(8, func(k int) {
+			c.guard("first-draws", func() {
+				note("nonce", tl.RandomInt128().Int)
+				note("new_nonce", tl.RandomInt256().Int)
+				_, gb, _ := rmath.MakeGAB(3, ga, p)
+				note("g_b", gb)
+			})
 		})
 		c.rep.Rounds++
 	}
